@@ -241,9 +241,11 @@ def s5(ctx, rep):
     from ..engine import deref
     app = [x for x in walk_shallow(prod.node) if isinstance(x, ast.Call) and fn_name(x) in ("append", "appendleft") and queue in U(x.func.value)]
     parked = deref(prod, argn(app[0], 0)) if len(app) == 1 and argn(app[0], 0) is not None else None
-    if parked is None or not isinstance(parked, ast.Tuple) or len(parked.elts) != 2:
+    from ..engine import record_elts
+    pelts = record_elts(parked) if parked is not None else None       # a pair, or a NamedTuple of the program with two fields
+    if pelts is None or len(pelts) != 2:
         raise AnchorError("PBT.on_trial_result: parking of (source id, config) on the decision stack not recognised")
-    src_var = U(parked.elts[0])
+    src_var = U(pelts[0])
     # the source is selected among trials that are not stopped
     q = c.methods["_quantiles"]
     tests_ = [n.test for n in walk_shallow(q.node) if isinstance(n, ast.If)] + \
